@@ -7,7 +7,8 @@ LEVEL = "proof"
 RULE = ("workspaces of 1-6 generated marker files (synthetic built-in/custom/aggregate rules + two real rules), random user "
         "config and CLI params; each linted free-running and with the completion order of the per-file workers FORCED to "
         "random permutations through schedule gates in an overlay copy of linter.go, and with the input list permuted; "
-        "non-trivial = the report has at least one world violation; distinct = distinct (files,config,params)")
+        "non-trivial = the report has at least one world violation; distinct = distinct (files,config,params)"
+        ' Also: workspaces on which the six real aggregate rules and a custom one report, under all / many forced completion orders (full reports compared); a mixed-version project loaded through the concurrent rules.InputFromPaths under GOMAXPROCS 1/2/16; the same operations under an oracle built with -race; go/ast facts on the per-file goroutines.')
 TRUSTED = ["Env boundary: rule packages, OPA parser/evaluator (marker world is an executable stand-in)",
            "Go mutex/channel semantics; atomicity of the mutex-protected merge block (checked: gates are inserted around it)"]
 ASSUMPTIONS = ["Env.AggPermInvariant for real aggregate rules is sampled, not proved"]
